@@ -9,7 +9,7 @@ from collections import Counter
 from .. import monitors as M
 from ..gen import make_pool, make_cfg, gen_history
 from ..harness import Sut
-from ..util import jdumps, stems
+from ..util import jdumps, stems, prefixes_of
 
 SAVE_MAX = 4
 
@@ -30,7 +30,7 @@ def features(sut):
         "flags": len(m.flags),
         "long": sum(1 for n in m.nodes if len(stems(n)[-1]) > 74),
         "unresolved": sum(1 for p, (w, _) in owner.items() if w is None),
-        "nested": sum(1 for p in m.we for q in m.we if p != q and p.startswith(q)),
+        "nested": sum(1 for p in m.we for q in prefixes_of(p)[:-1] if q in m.we),
         "auto_groups": sut.local.get("created_groups", 0),
         "reopens": sut.local.get("reopens", 0),
         "deletes": sut.opcount.get("delete", 0) + sut.opcount.get("rmp", 0),
@@ -151,6 +151,25 @@ def big_case(rng, n, name=b"big", merged_prefixes=1100):
         ops.append({"op": "add_pages", "lrus": [rng.choice(merged) + b"p:%d|" % i for i in range(40)], "crawled": True, "as_str": False})
     return {"engine": "history", "cfg": cfg, "ops": ops, "audit_every": len(ops), "aseed": rng.getrandbits(32), "big": n,
             "probes": [hub, fan, pages[5], pages[6], nested, site]}
+
+
+def ids_case(rng, n):
+    """n (> 65536) webentities created one request each, then ordinary requests on top: ids beyond two
+    bytes, a trie of > 200 000 blocks (file offsets beyond 2**24)."""
+    mod = 100003 if n < 100003 else 1000003
+    sites = [b"s:http|h:com|h:w%06d|" % (i * 7919 % mod) for i in range(n)]
+    ops = [{"op": "create_many", "prefixes": sites}]
+    last, first, mid = sites[-1], sites[0], sites[n // 2]
+    ops.append({"op": "add_pages", "lrus": [last + b"p:a|", last + b"p:b|p:c|", first + b"p:a|", mid + b"p:x|", b"s:https|h:org|h:new|p:z|"], "crawled": True, "as_str": False})
+    ops.append({"op": "create", "prefixes": [last + b"p:b|"]})
+    ops.append({"op": "add_links", "links": [[last + b"p:a|", first + b"p:a|"], [mid + b"p:x|", last + b"p:b|p:c|"], [b"s:https|h:org|h:new|p:z|", last + b"p:a|"]], "as_str": False})
+    ops.append({"op": "delete", "of": mid, "prefixes": [mid]})
+    cfg = {"backend": rng.choice(["file", "memory"]), "default": "domain", "encoding": "utf-8", "overwrite": False, "rules": []}
+    if cfg["backend"] == "file":
+        ops.append({"op": "reopen"})
+    ops.append({"op": "add_page", "lru": b"s:http|h:fr|h:apres|p:1|", "crawled": False, "as_str": False})
+    ops.append({"op": "create", "prefixes": [mid]})
+    return {"engine": "history", "cfg": cfg, "ops": ops, "audit_every": len(ops), "aseed": rng.getrandbits(32), "ids": n}
 
 
 def wide_case(rng, n_sites):
@@ -338,6 +357,8 @@ def run_shard(prop, spec, tier, seed, shard, nshards, scratch):
         extra.append(("sorted_chain", tp["sorted_chain"], None))
     if tp.get("big") and shard == max(0, nshards - 3):
         extra.append(("big", tp["big"], None))
+    if tp.get("ids") and shard == max(0, nshards - 4):
+        extra.append(("ids", tp["ids"], None))
     for kind, a1, a2 in extra:
         if time.time() > deadline:
             if kind == "shape":
@@ -357,13 +378,16 @@ def run_shard(prop, spec, tier, seed, shard, nshards, scratch):
         elif kind == "big":
             case = big_case(rng, a1)
             stats["big_cases_past_the_yield_thresholds"] += 1
+        elif kind == "ids":
+            case = ids_case(rng, a1)
+            stats["cases_with_ids_past_65536"] += 1
         else:
             case = soak_case(rng, a1)
             stats["soak_cases"] += 1
         case["id"] = "%s/%s/%s" % (kind, a1, "".join(map(str, a2 or ())))
         ds, feats, digest = run_case(prop, case, spec, scratch, stats)
         res["cases"] += 1
-        if kind in ("soak", "wide", "sorted_chain", "big"):
+        if kind in ("soak", "wide", "sorted_chain", "big", "ids"):
             res["notes"].append("%s case: %s" % (kind, feats))
         if feats and nontrivial(feats):
             res["nontrivial"].append(digest)
